@@ -74,6 +74,30 @@ func init() {
 			cur.os.files[name] = nil
 			return tuple{cur.newOSFile(fr, &memFile{name: name, write: true}), iface{}}, true
 		},
+		"os.Remove": func(fr *frame, a []value) (value, bool) {
+			if cur.os == nil {
+				return nil, false
+			}
+			name := concStr(a[0])
+			if _, ok := cur.os.files[name]; !ok {
+				return goError(fr, "remove "+name+": no such file or directory"), true
+			}
+			delete(cur.os.files, name)
+			return iface{}, true
+		},
+		"os.Rename": func(fr *frame, a []value) (value, bool) {
+			if cur.os == nil {
+				return nil, false
+			}
+			from, to := concStr(a[0]), concStr(a[1])
+			data, ok := cur.os.files[from]
+			if !ok {
+				return goError(fr, "rename "+from+" "+to+": no such file or directory"), true
+			}
+			delete(cur.os.files, from)
+			cur.os.files[to] = data
+			return iface{}, true
+		},
 		"(*os.File).Name": func(fr *frame, a []value) (value, bool) {
 			mf := osFileOf(a[0])
 			if mf == nil {
